@@ -4,6 +4,23 @@ import json
 import os
 
 VERIF = "/verif"
+# which parts of the source each run translates into Gallina and proves equal to the hand-written model (DESIGN 9.1)
+REGENERATED = {
+    "C02": "gen/exprs.py: Hextile / ZRLE tile and sub-rectangle geometry",
+    "C04": "gen/server.py decodekey: _decodeKey; gen/exprs.py: key passes",
+    "C05": "gen/exprs.py: drag path, pointer operations",
+    "C06": "gen/exprs.py: update-request fields, region box",
+    "C07": "gen/expect.py: _expectCompare; gen/exprs.py: region box",
+    "C08": "gen/exprs.py: pause / delay arithmetic; gen/commands.py: vocabulary",
+    "C09": "gen/exprs.py: exit-status decisions, the --timeout timer",
+    "C10": "gen/commands.py: vocabulary",
+    "C12": "gen/screen.py: updateRectangle / updateDesktopSize",
+    "C14": "gen/exprs.py: _vnc_des key schedule",
+    "C16": "gen/dispatch.py: recorder dispatch (run-the-model tie)",
+    "C17": "gen/recorder.py: handle_keyEvent / handle_pointerEvent; gen/dispatch.py",
+    "C18": "gen/dispatch.py; gen/commands.py",
+    "C20": "gen/server.py: parse_server",
+}
 CLAIMED = {
     "C04": ("Coq theorems over all texts/chords/code points for the executable model of _decodeKey/keyPress/keyDown/keyUp "
             "(key table regenerated from the running code, KeyEvent format from the source), X11 binding checked over the whole table; "
@@ -197,6 +214,8 @@ def main():
         pid = p["id"]
         if pid in CLAIMED:
             text, note, tech = CLAIMED[pid]
+            if pid in REGENERATED:
+                tech += " + translator-regenerated Gallina terms proved equal to the model (" + REGENERATED[pid] + ")"
             m["checks"].append({
                 "property_id": pid,
                 "quick_cmd": f"./check {pid} --tier quick",
